@@ -169,14 +169,14 @@ def strip_attrs_start(toks, item, derives=None):
 
 
 class Edit:
-    def __init__(self, a, b, text, origin):
-        self.a, self.b, self.text, self.origin = a, b, text, origin
+    def __init__(self, a, b, text, origin, order=0):
+        self.a, self.b, self.text, self.origin, self.order = a, b, text, origin, order
 
 
 def render(out, rf, a, b, edits):
     """emit repo tokens [a,b) with edits (replace token range [e.a,e.b) by e.text; a==b is insertion)."""
     toks = rf.toks
-    edits = sorted(edits, key=lambda e: (e.a, e.b))
+    edits = sorted(edits, key=lambda e: (e.a, e.order, e.b))
     for x, y in zip(edits, edits[1:]):
         if y.a < x.b:
             raise Undecided("overlapping edits at %s:%d" % (rf.rel, toks[y.a].line))
@@ -586,6 +586,7 @@ class Unit:
         self.cur_impl = None
         self.includes = []
         self.assumed = []
+        self.required = []
 
     # -- template parsing --
     def build(self, vacuity=False):
@@ -615,9 +616,23 @@ class Unit:
                 self._item(d[1], d[2], d[3])
                 i += 1
             elif cmd == "impl":
-                m = re.match(r'//@impl\s+(\S+)\s+"([^"]+)"(\s+inherent)?', s)
+                m = re.match(r'//@impl\s+(\S+)\s+"([^"]+)"(\s+inherent)?(\s+required)?', s)
                 if not m:
                     raise Undecided("bad //@impl directive at %s:%d" % (relname, i + 1))
+                if m.group(4):
+                    # DESIGN 3.5: an impl a property DEPENDS on (e.g. a Drop that drains).  If it is gone, that is
+                    # not a lost anchor but a failed obligation: emit one, and skip the block.
+                    rf = RepoFile.get(m.group(1))
+                    present = any(it["kw"] == "impl" and m.group(2) in L.impl_header(rf.toks, it) for it in rf.items)
+                    nm = "required_impl__" + re.sub(r"[^A-Za-z0-9]+", "_", m.group(2)).strip("_")
+                    self.required.append(dict(name=nm, present=present, file=m.group(1), header=m.group(2)))
+                    if not present:
+                        self.out.emit("proof fn %s() { assert(false); } // REQUIRED-IMPL-MISSING: `impl %s` in %s\n" % (nm, m.group(2), m.group(1)), ("tpl", relname, i + 1))
+                        j = i + 1
+                        while j < n and lines[j].strip() != "//@endimpl":
+                            j += 1
+                        i = j + 1
+                        continue
                 self._impl(m.group(1), m.group(2), bool(m.group(3)))
                 i += 1
             elif cmd == "endimpl":
@@ -958,7 +973,8 @@ class Unit:
                     ee -= 1
                 edits.append(Edit(ee, ee, " }", ("gen", "arm-brace")))
             else:
-                edits.append(Edit(i, i, "\n" + tpl_text(lines), ("tpl", relname, lines[0][1] - 1)))
+                # statement-level insertion: must come before any wrapper a rewrite opens at the same token
+                edits.append(Edit(i, i, "\n" + tpl_text(lines), ("tpl", relname, lines[0][1] - 1), order=-1))
         for k, tok, lines in fs.after:
             words = [t.text for t in L.tokenize(tok) if t.kind != "ws"]
             occ = [x for x in range(len(sgb)) if _seq_at(toks, sgb, x, words)]
